@@ -305,6 +305,9 @@ func c14Seeds() [][]Op {
 		{{K: "PushBlob", Repo: "r", B: 1}, {K: "PushBlob", Repo: "r", B: 2}, {K: "PushManifest", Repo: "r", M: 1}, {K: "PushManifest", Repo: "r", M: 4, Tag: "t"}},
 		{{K: "PushBlob", Repo: "r", B: 1}, {K: "PushBlob", Repo: "r", B: 2}, {K: "PushManifest", Repo: "r", M: 1, Tag: "t"}, {K: "PushManifest", Repo: "r", M: 8}},
 		{{K: "PushBlob", Repo: "s", B: 1}, {K: "PushManifest", Repo: "s", M: 0, Tag: "t"}, {K: "PushManifest", Repo: "s", M: 2, Tag: "u"}},
+		// a tagged image and an untagged one that share a blob (the config): what happens to the untagged one
+		// does not loosen the tagged one's hold on it
+		{{K: "PushBlob", Repo: "r", B: 1}, {K: "PushBlob", Repo: "r", B: 2}, {K: "PushManifest", Repo: "r", M: 1, Tag: "t"}, {K: "PushManifest", Repo: "r", M: 2}},
 	}
 }
 
@@ -343,7 +346,9 @@ func c14Check(r *vcore.Run) vcore.Coverage {
 		d1, d2 = 3, 2
 	}
 	cfg := c14Config(u, true)
-	run("Immutable-wrapper", func() vstate.System[Op] { return newImmutableWrapperSys(r, u, cfg) }, d1+1, c14Seeds(), 10*time.Minute)
+	cfgw := cfg
+	cfgw.DoneCtx = true
+	run("Immutable-wrapper", func() vstate.System[Op] { return newImmutableWrapperSys(r, u, cfgw) }, d1+1, c14Seeds(), 10*time.Minute)
 	run("immutable-tags", func() vstate.System[Op] { return newImmutableTagsSys(r, u, cfg) }, d1, c14Seeds(), 10*time.Minute)
 	run("ReadOnly-wrapper", func() vstate.System[Op] { return newReadOnlyProbeSys(r, u, c14Config(u, false)) }, d2, c14Seeds(), 10*time.Minute)
 	// a tagged tree seven levels deep (tag -> five nested indexes -> index -> image -> blobs): protection
